@@ -1,7 +1,7 @@
 // svmc W1 driver. Configuration by macros:
 //   SV_FLAVOR  element type (TokNM, TokTM, TokMO, TokMOT, TokCO, Triv, int)
 //   SV_N       inline capacity
-//   SV_ALLOC   0 = std::allocator, 1 = ledger allocator (plain)
+//   SV_ALLOC   0 = std::allocator, 1 = ledger allocator (plain), 2 = ledger allocator with construct/destroy
 #define SVMC_DEFINE_NEW_HOOK
 #include "w1.hpp"
 
@@ -20,6 +20,8 @@ using namespace svmc;
 typedef SV_FLAVOR Elem;
 #if SV_ALLOC == 0
 typedef std::allocator<Elem> Alloc;
+#elif SV_ALLOC == 2
+typedef LAC<Elem, ACfgPlain> Alloc;     // ledger allocator with construct / destroy members
 #else
 typedef LA<Elem, ACfgPlain> Alloc;
 #endif
